@@ -989,20 +989,43 @@ def merged_state_rule(ctx, rid):
         if isinstance(node, ast.Subscript) and isinstance(node.slice, ast.Constant) and node.slice.value is None and ast.unparse(node.value).endswith('sim_states'):
             return {'carrier'}
         return None
-    deps = name_deps(fn, {}, source_of)
-    rets = [r for r in ast.walk(fn) if isinstance(r, ast.Return) and r.value is not None]
-    if not rets:
-        raise AnalysisError('create_merged_state: no return')
-    for k, r in enumerate(rets, 1):
-        labs = set()
-        for x in ast.walk(r.value):
-            if isinstance(x, ast.Name) and x.id in deps:
-                labs |= deps[x.id]
+    # path-sensitive, with strong updates: re-binding the local to something that does not come from the carrier loses it
+    from ..flow import PathWalker
+    results = {}
+
+    def carries(e, st):
+        env = dict(st)
+        for x in ast.walk(e):
             if source_of(x):
-                labs |= {'carrier'}
-        ok = 'carrier' in labs
-        ctx.ob(rid, f'{ps.qual}.create_merged_state:return#{k}', ok, '' if ok else f'`return {ast.unparse(r.value)[:70]}` is built without self.sim_states[None]: global phase operations '
-               'applied so far are lost from the merged state (final state vectors come out with the wrong phase)', ps.mod.rel, r.lineno)
+                return True
+            if isinstance(x, ast.Name) and isinstance(x.ctx, ast.Load) and env.get(x.id, False):
+                return True
+        return False
+
+    def transfer(node, st):
+        env = dict(st)
+        if isinstance(node, ast.Return) and node.value is not None:
+            results.setdefault(node, []).append(carries(node.value, st))
+            return [st]
+        if isinstance(node, (ast.Assign, ast.AnnAssign)) and getattr(node, 'value', None) is not None:
+            c = carries(node.value, st)
+            for t in (node.targets if isinstance(node, ast.Assign) else [node.target]):
+                for x in ast.walk(t):
+                    if isinstance(x, ast.Name) and isinstance(x.ctx, ast.Store):
+                        env[x.id] = c
+        elif isinstance(node, ast.AugAssign) and isinstance(node.target, ast.Name):
+            env[node.target.id] = env.get(node.target.id, False) or carries(node.value, st)
+        return [tuple(sorted(env.items()))]
+    try:
+        PathWalker(transfer).run(fn, ())
+    except RuntimeError:
+        raise AnalysisError('create_merged_state: path explosion')
+    if not results:
+        raise AnalysisError('create_merged_state: no return')
+    for k, r in enumerate(sorted(results, key=lambda r_: r_.lineno), 1):
+        ok = all(results[r])
+        ctx.ob(rid, f'{ps.qual}.create_merged_state:return#{k}', ok, '' if ok else f'`return {ast.unparse(r.value)[:70]}` can be reached with a value built without self.sim_states[None]: '
+               'global phase operations applied so far are lost from the merged state (final state vectors come out with the wrong phase)', ps.mod.rel, r.lineno)
 
 
 # gate classes after which every touched qubit is, by construction, unentangled with the rest (so an unchecked factor() is exact)
